@@ -19,6 +19,7 @@ CHECK = {
     "crash_is_violation": True,
     "runs": [
         {"name": "surfaces", "run": "^TestC01_Surfaces$", "checks": {"quick": 300, "thorough": 4000}, "shards": {"quick": 6, "thorough": 16}},
+        {"name": "lookups", "run": "^TestC01_Lookups$", "checks": {"quick": 20, "thorough": 200}, "shards": {"quick": 4, "thorough": 16}},
         {"name": "wire", "run": "^TestC01_Wire$", "checks": {"quick": 60, "thorough": 600}, "shards": {"quick": 4, "thorough": 16}},
     ],
     "fuzz": [{"name": "FuzzC01Talk", "time": "120s"}],
@@ -31,5 +32,5 @@ CHECK = {
         "hangs are only detected as 'did not return in 60 s' and reported as inconclusive",
     ],
     "required_classes": {"quick": ["talk:len<=2", "talk:answered", "content:len<=2", "pong:processed", "nodes:processed", "offerresp:processed", "stream:queued",
-                                   "validate:accepted", "validate:key-len<=1", "put:ok", "get:key-len<=1", "wire:utp-packet", "wire:portal-packet", "net:history", "net:beacon", "net:state"]},
+                                   "validate:accepted", "validate:key-len<=1", "put:ok", "get:key-len<=1", "wire:utp-packet", "wire:portal-packet", "late-replies-after-lookup-ended", "net:history", "net:beacon", "net:state"]},
 }
